@@ -743,12 +743,12 @@ def main():
     if bad:
         run.inconclusive(f"semverref self-test failed: {bad[:3]}")
         run.finish([])
-    n = args.budget("universes", 25, 600)
+    n = args.budget("universes", 25, 300)
     k_fresh = args.budget("k_fresh", 3, 4)
     k_fresh_aimed = args.budget("k_fresh_aimed", 8, 12)
     k_build = args.budget("k_build", 2, 3)
     k_build_aimed = args.budget("k_build_aimed", 4, 8)
-    jobs = int(args.extra.get("jobs", 4 if not args.thorough() else 6))
+    jobs = int(args.extra.get("jobs", 4 if not args.thorough() else 8))
     sabotage = args.extra.get("sabotage")
     base = run.scratch()
 
